@@ -625,6 +625,33 @@ def pool_rules(fb, R):
         pops = [n for n in fn.all_nodes() if n.get('k') == 'call' and n.get('q') == Q + '::wait_and_pop']
         R.check(len(calls) == 1 and len(pops) == 1 and fn.elem_dominates(pops[0]['id'], calls[0]['id']),
                 'P1-worker-one-call-per-pop', fn.q, fn.site, 'worker_thread must call each popped task exactly once, after the pop')
+        # P6: the wrapper handed to the pop is empty: the previous task has been destroyed (scope end) or reset before the worker
+        # waits again.  Otherwise the finished task's functor lives until the same worker gets its next task and is then destroyed
+        # by the move-assignment inside Queue::wait_and_pop, i.e. while the work queue's mutex is held (user code under the lock).
+        for pop in pops:
+            tv = fn.root_var(pop['args'][0]) if pop.get('args') else None
+            if not tv or tv[0] != 'var':
+                R.broken('P6: %s: the object popped into is not a local variable' % fn.q)
+                continue
+            d = tv[1]
+
+            def released(e, d=d):
+                if isinstance(e, tuple):
+                    return False
+                n = fn.nodes[e]
+                if n.get('k') == 'autodtor' and n.get('d') == d:
+                    return True
+                if n.get('k') == 'assign' or (n.get('k') == 'call' and n.get('op') == '='):
+                    lhs = n.get('lhs') if n.get('k') == 'assign' else (n.get('recv') if n.get('recv') is not None else (n.get('args') or [None])[0])
+                    rv = fn.root_var(lhs) if lhs is not None else None
+                    # task = function_wrapper{} / task = {} : anything but a self-reference empties or replaces the wrapper outside the lock
+                    return bool(rv) and rv[0] == 'var' and rv[1] == d
+                return False
+            w = path_search(fn, pop['id'], lambda e: e == pop['id'], released)
+            R.check(w is None, 'P6-task-released-before-next-wait', fn.q + '#' + tv[2], fn.loc(pop['id']),
+                    'worker_thread waits for the next task while `%s` still holds the previous one (path back to the pop without destroying or '
+                    'resetting it: %s): the finished task is kept alive indefinitely and its functor is finally destroyed inside '
+                    'Queue::wait_and_pop under the queue mutex' % (tv[2], describe_path(fn, w) if w else ''))
     if not fb.fns(P + '::worker_thread'):
         R.broken('Pool::worker_thread not found')
 
@@ -795,6 +822,7 @@ def run(ctx):
     R.expect('P2-call-return-values', 2)
     R.expect('P4-submit-future-before-push', 1)
     R.expect('P5-spawn-failure-shuts-workers-down', 1)
+    R.expect('P6-task-released-before-next-wait', 1)
 
 
 def _selftest_queue(fb, R):
